@@ -22,8 +22,10 @@ package main
 //	sx <seed> / cx <seed>                         => same | differ …
 //	    server / client-common settings that have flags: argv path against the three file formats and, when
 //	    the values are INI-safe, against the legacy [common] section (whose keys are the flag names)
-//	cval <root> k=v …                             => ok | name | annot | ppv | bwmode | port | hctype | hcpath | domains | mux | other
-//	    ValidateProxyConfigurerForClient / ValidateVisitorConfigurer (name | sname | bport | proto)
+//	cval <root> k=v …                             => ok | name | annot | ppv | bwmode | port | hctype | hcpath | plugin | domains | mux | other
+//	    ValidateProxyConfigurerForClient / ValidateVisitorConfigurer (name | sname | bport | proto); the blocks of a
+//	    proxy definition (name, transport, local address, health check, plugin = Plugin.Type + Plugin.LocalAddr /
+//	    LocalPath / UnixPath, the type's own fields) are generated independently of each other
 //	sval k=v …                                    => ok | <tag>,<tag>…              ValidateServerConfig
 //	nr <str>                                      => ok n,… | err                   parseNumberRange (template function)
 //	bweq <a> <b>                                  => eq | ne | err                  BandwidthQuantity.Equal
@@ -458,15 +460,23 @@ func confCVal(tok []string) string {
 	pc, vc := newRoot(root)
 	if root[0] == 'p' {
 		rv := reflect.ValueOf(pc).Elem()
+		plug := map[string]string{}
 		for i, k := range keys {
+			if strings.HasPrefix(k, "Plugin.") {
+				plug[k[len("Plugin."):]] = docString(vals[i])
+				continue
+			}
 			decInto(fieldByPath(rv, k), vals[i])
 		}
+		setClientPlugin(pc.GetBaseConfig(), plug)
 		err := validation.ValidateProxyConfigurerForClient(pc)
 		if err == nil {
 			return "ok"
 		}
 		s := err.Error()
 		switch {
+		case strings.HasPrefix(s, "plugin "):
+			return "plugin"
 		case strings.Contains(s, "name should not be empty"):
 			return "name"
 		case strings.Contains(s, "annotation"):
@@ -1311,7 +1321,7 @@ func genCVal(rng *rand.Rand) string {
 	pc, _ := newRoot("p:" + t)
 	rv := reflect.ValueOf(pc).Elem()
 	out := []string{"cval", "p:" + t}
-	fields := []string{"Name", "Annotations", "Transport.ProxyProtocolVersion", "Transport.BandwidthLimitMode", "LocalPort",
+	fields := []string{"Name", "Annotations", "Transport.ProxyProtocolVersion", "Transport.BandwidthLimitMode", "LocalIP", "LocalPort",
 		"HealthCheck.Type", "HealthCheck.Path"}
 	for _, f := range confTyped[t] {
 		if f == "CustomDomains" || f == "SubDomain" || f == "Multiplexer" {
@@ -1338,12 +1348,38 @@ func genCVal(rng *rand.Rand) string {
 			if rng.Intn(3) != 0 {
 				v = "s" + hx("httpconnect")[1:]
 			}
-		case "HealthCheck.Type", "Transport.ProxyProtocolVersion":
+		case "Transport.ProxyProtocolVersion":
 			if rng.Intn(2) == 0 {
 				v = "z"
 			}
+		case "HealthCheck.Type":
+			// absent, an allowed one, or anything else (other protocols, other letter case, blanks)
+			switch r := rng.Intn(10); {
+			case r < 4:
+				v = "z"
+			case r < 7:
+				v = "s" + hx(pick(rng, []string{"tcp", "http", "http"}))[1:]
+			case r < 8:
+				v = "s" + hx(pick(rng, []string{"udp", "HTTP", "Tcp", "icmp", "https", " tcp", "http ", "ping", "名"}))[1:]
+			}
 		}
 		out = append(out, k+"="+v)
+	}
+	// the plugin block: none, or any plugin type with / without the option its validator asks for
+	if rng.Intn(2) == 0 {
+		pt := pick(rng, clientPluginTypes)
+		if rng.Intn(12) == 0 {
+			pt = pick(rng, []string{"bogus", "HTTP2HTTPS", "unix"})
+		}
+		out = append(out, "Plugin.Type=s"+hx(pt)[1:])
+		for _, o := range []string{"LocalAddr", "LocalPath", "UnixPath"} {
+			switch r := rng.Intn(8); {
+			case r < 5:
+				out = append(out, "Plugin."+o+"=s"+hx(pick(rng, []string{"127.0.0.1:80", "/tmp/x", "a b", "名"}))[1:])
+			case r < 6:
+				out = append(out, "Plugin."+o+"=z")
+			}
+		}
 	}
 	return strings.Join(out, " ")
 }
@@ -1403,8 +1439,14 @@ func confGenExt(rng *rand.Rand, emit func(string)) {
 		emit(genFl(rng))
 	case k < 70:
 		emit(genCF(rng))
-	case k < 80:
+	case k < 78:
 		emit(genCVal(rng))
+	case k < 80:
+		if rng.Intn(5) < 2 {
+			emit(genPLoad(rng))
+		} else {
+			emit(fmt.Sprintf("own %d %s", rng.Intn(1<<30), pick(rng, []string{"toml", "yaml", "json"})))
+		}
 	case k < 84:
 		emit(genSVal(rng))
 	case k < 88:
